@@ -80,9 +80,8 @@ def gen(rng, tier, prop):
             if rng.random() < 0.97 or not any(a == 2 for _, a, _ in ins):
                 s0 = ins[0]
                 ins[0] = (s0[0], 1, s0[2])
-        if nin >= 2 and rng.random() < 0.22:
-            # one list-shaped slot: two consecutive entries bound to two producers
-            k = rng.randrange(nin - 1)
+        for k in ([0, 2] if nin >= 4 and rng.random() < 0.35 else ([rng.randrange(nin - 1)] if nin >= 2 and rng.random() < 0.22 else [])):
+            # list-shaped slots: two consecutive entries bound to two producers (with four inputs sometimes two such slots)
             act = 1 if 1 in (ins[k][1], ins[k + 1][1]) else ins[k][1]
             req = ins[k][2] & 1
             allv = 8 if rng.random() < 0.6 else 0
@@ -139,13 +138,22 @@ def gen(rng, tier, prop):
                     elif r < 0.985:
                         ops.append([8, 0, 0])
                     elif ins:
-                        plain = [k for k, e in enumerate(ins) if (e[2] >> 1) & 3 == 0]
+                        # plain slots, and list slots through their first entry (the slot is (un)subscribed as a whole)
+                        plain = [k for k, e in enumerate(ins) if (e[2] >> 1) & 3 in (0, 1)]
                         if plain:
                             ops.append([rng.choice([9, 9, 10]), rng.choice(plain), 0])
                 if not ops:
                     ops = [[0, 0, 0]]  # explicit empty script for run k (overrides the default)
                 for op in ops:
                     case.append([3, i, k] + op)
+        heads = [k for k, e in enumerate(ins) if (e[2] >> 1) & 3 == 1]
+        if len(heads) >= 2 and rng.random() < 0.6:
+            # two list slots: unsubscribe one of them at run time (the other must keep waking the node)
+            k = rng.randint(0, 2)
+            keep = [l for l in case if l[0] == 3 and l[1] == i and l[2] == k]
+            if not keep and ho:
+                case.append([3, i, k, 6, rng.randint(0, 5), 0])
+            case.append([3, i, k, 9, rng.choice(heads), 0])
     return case
 
 
@@ -459,8 +467,10 @@ def oracle(prop, case, out):
                     elif a == 0 and raw[i] is not None:
                         raw_dropped.add(raw[i])   # schedule_now while being evaluated overrides a later raw request
                         raw[i] = None
-                elif code in (9, 10) and 0 <= a < len(nd["ins"]) and nd["role"][a] == 0:
+                elif code in (9, 10) and 0 <= a < len(nd["ins"]) and nd["role"][a] in (0, 1):
                     actv[i][a] = (code == 10)
+                    if nd["role"][a] == 1 and a + 1 < len(nd["ins"]):
+                        actv[i][a + 1] = (code == 10)
                 elif code == 6 and nd["ho"]:
                     pass
                 opi += 1
